@@ -103,7 +103,7 @@ def wr_case(cid: str, cls, schema: dict, aval: dict, rng: random.Random) -> dict
     post = bytes(rng.randrange(256) for _ in range(rng.choice([0, 1, 3, 40])))
     case = {
         "id": cid, "mode": "wr", "sid": schema["sid"], "value": aval, "var": CANON_VAR,
-        "input": [], "wev": RecSink.events(sink), "wout": outcome_name(wexc),
+        "input": {"raw": []}, "wev": RecSink.events(sink), "wout": outcome_name(wexc),
         "rev": [], "rout": "skipped", "rval": project.NULL, "req": False,
     }
     if wexc is None:
@@ -131,7 +131,7 @@ def rw_case(cid: str, cls, schema: dict, aval: dict, var: dict, data: bytes,
                                                   budget=4 * len(data) + 200)
     case = {
         "id": cid, "mode": "rw", "sid": schema["sid"], "value": aval, "var": var,
-        "input": project.runs(data), "wev": [], "wout": "skipped",
+        "input": project.babs(data), "wev": [], "wout": "skipped",
         "rev": RecSource.events(src), "rout": outcome_name(rexc),
         "rval": project.NULL, "req": True,
     }
@@ -232,7 +232,7 @@ def gen_rw_shard(args) -> dict:
         cls = getattr(importlib.import_module(mod), qual)
         schema = project.project_schema(cls)
         rng = random.Random(seed * 17 + len(cases))
-        rc = rw_case(c["id"], cls, schema, c["value"], c["var"], project.unruns(e["b"]), rng)
+        rc = rw_case(c["id"], cls, schema, c["value"], c["var"], project.unbabs(e["b"]), rng)
         rc["wt"] = bool(e["wt"])
         cases.append(rc)
     write_shard(out_path, data["schemas"], cases)
@@ -295,7 +295,7 @@ def gen_trunc_shard(args) -> dict:
     import importlib
     cases, nprobes = [], 0
     for c in data["cases"]:
-        raw = project.unruns(enc[c["id"]]["b"])
+        raw = project.unbabs(enc[c["id"]]["b"])
         mod, _, qual = c["sid"].partition(":")
         cls = getattr(importlib.import_module(mod), qual)
         rng = random.Random(seed * 131 + len(cases))
@@ -307,7 +307,7 @@ def gen_trunc_shard(args) -> dict:
                            "exc": "" if p["exc"] is None else type(p["exc"]).__name__})
         nprobes += len(probes)
         cases.append({"id": c["id"], "mode": "trunc", "sid": c["sid"], "value": c["value"],
-                      "enc": project.runs(raw), "probes": probes})
+                      "enc": project.babs(raw), "probes": probes})
     write_shard(out_path, data["schemas"], cases)
     return {"path": out_path, "cases": len(cases), "probes": nprobes}
 
@@ -377,7 +377,7 @@ def gen_mut_shard(args) -> dict:
     import importlib
     cases, nprobes = [], 0
     for c in data["cases"]:
-        raw = project.unruns(enc[c["id"]]["b"])
+        raw = project.unbabs(enc[c["id"]]["b"])
         mod, _, qual = c["sid"].partition(":")
         cls = getattr(importlib.import_module(mod), qual)
         schema = project.project_schema(cls)
@@ -386,7 +386,7 @@ def gen_mut_shard(args) -> dict:
         probes = []
         for i, m in enumerate(mutations(raw, reads, rng, per_case)):
             p = probe(cls, m)
-            pr = {"b": project.runs(m), "out": p["out"], "mro": p["mro"], "serial": p["serial"],
+            pr = {"b": project.babs(m), "out": p["out"], "mro": p["mro"], "serial": p["serial"],
                   "consumed": p["consumed"], "reads": p["reads"], "rval": project.NULL,
                   "reenc": True, "check": False,
                   "exc": "" if p["exc"] is None else repr(p["exc"])[:200]}
@@ -400,7 +400,7 @@ def gen_mut_shard(args) -> dict:
             probes.append(pr)
         nprobes += len(probes)
         cases.append({"id": c["id"], "mode": "mut", "sid": c["sid"], "value": c["value"],
-                      "enc": project.runs(raw), "probes": probes})
+                      "enc": project.babs(raw), "probes": probes})
     write_shard(out_path, data["schemas"], cases)
     return {"path": out_path, "cases": len(cases), "probes": nprobes}
 
